@@ -502,7 +502,9 @@ C20_run(H) ==
        /\ (ex.method = "syn" => H.out.accepts = 0 /\ SackTr = {})                                  \* syn: no TCP connection is ever opened
        /\ (ex.method = "sack" => ~SynAttempted)                                                     \* sack: never masked by a SYN trace
        /\ (ex.fallback <=> (ex.method = "prefer_sack" /\ SynAttempted))                               \* SYN path exactly when SACK is unavailable
-       /\ CASE ex.out = "sack" -> /\ H.out.ok /\ Len(H.out.runs) = 1 /\ SackTr # {}
+       \* (a request whose context was cancelled may also end with an error instead of the outcome of the policy)
+       /\ (H.cancel >= 0 /\ ~H.out.ok /\ ~H.out.has_result) \/
+          CASE ex.out = "sack" -> /\ H.out.ok /\ Len(H.out.runs) = 1 /\ SackTr # {}
                                   /\ \E w \in SackTr : SentOfRun(H, w)[1].p.sport = H.out.runs[1].sport
             [] ex.out = "syn"  -> /\ H.out.ok /\ Len(H.out.runs) = 1
                                   /\ \E w \in SynTr : SentOfRun(H, w)[1].p.sport = H.out.runs[1].sport
